@@ -17,9 +17,9 @@ CFG = {
     "level_note": "Trusted: Coq kernel + vm_compute; hand-written models tied by differential correspondence only "
                   "(generator quality bounds it); exp/log/sigmoid/sqrt are Go float functions: Section variables in the "
                   "theorems, tolerance checks harness-side (sqrt is checked in Coq through w*w); gzip is Go's "
-                  "compress/gzip; SplatPly: the vertex block round trip is proved against the C08 reader model with "
-                  "the C04 group layout (imports Formats/PlyWriteProofs.v read-only), the header text and reader "
-                  "construction are checked per case only (C04's mesh-level glue is not proved yet); one theorem (splat_scale_real, the exp/log "
+                  "compress/gzip; SplatPly: the whole-file round trip (header text, reader construction, vertex block) is "
+                  "proved on C04's writer model and C08's reader model (Formats/SplatPlyLink.v imports them read-only); "
+                  "those two models are tied to the Go code by the C04/C08 checks and here per case; one theorem (splat_scale_real, the exp/log "
                   "scale clause) is stated over Coq's Reals and therefore shows the standard library's real-number "
                   "axioms under Print Assumptions, every other theorem is closed under the global context",
     "technique": "Coq proof (induction over record lists; Q/Z inequalities for the quantisers; nth/flat_map layout "
